@@ -210,6 +210,7 @@ def _job(job):
     res_steps = []
     rc = 0; out = b''
     for cfg, env_extra in job['steps']:
+        _reset_src(wdir, _W['snap'])
         env = dict(os.environ, DISTRIBUTION=cfg.dist, LC_ALL='C', GOMAXPROCS='1')
         env.pop('VERIF_MAPX', None)
         env.update(env_extra or {})
